@@ -13,6 +13,7 @@ INVARIANTS
   WriterOk
   DecodeLaws
   HeaderAligned
+  GapAsAnnounced
   DamageOk
   Emit
 CHECK_DEADLOCK FALSE
